@@ -61,7 +61,7 @@ def gen_specs(ctx):
     out.append(S([E("Base", [F("b", "string")], shoot=True), F("Pub")]))
     n = ctx.n(300, 2500)
     for _ in range(n):
-        s = g.top("T", getset_dirs=True, generic=0.08, maxfields=4, generic_embed=0.2, selfembed=0.05)
+        s = g.top("T", getset_dirs=True, generic=0.08, maxfields=4, generic_embed=0.2, selfembed=0.05, types_extra=newgen.EXTRA_TYPES)
         s["typedoc"] = ctx.rng.choice(TYPEDOCS)
         for m in s["members"]:
             if m["k"] == "e" and ctx.rng.random() < 0.45 and not s["tparams"]:
